@@ -90,13 +90,17 @@ theorem C03_finish_wf (scan : Nat → ScanRes) (raw m : Module) (h : finish scan
     · subst hm; rcases hcase with hc | ⟨_, _, hc⟩ <;> subst hc <;> rfl
     · subst hm; rcases hcase with hc | ⟨_, _, hc⟩ <;> subst hc <;> rfl
     · subst hm; rcases hcase with hc | ⟨_, _, hc⟩ <;> subst hc <;> rfl
+  have hloops : sampleLoopsOK m = true := by
+    apply sampleLoops_of (a := adjustNames raw)
+    · subst hm; rcases hcase with hc | ⟨_, _, hc⟩ <;> subst hc <;> rfl
+    · subst hm; rcases hcase with hc | ⟨_, _, hc⟩ <;> subst hc <;> rfl
   have hord : ordersOK m = true := by
     apply orders_of (e := epilogue (adjustNames raw))
     subst hm; rcases hcase with hc | ⟨hf, _, hc⟩ <;> subst hc
     · left; rfl
     · right; exact ⟨rfl, hf, rfl, rfl⟩
   simp only [WFCommon, Bool.and_eq_true]
-  exact ⟨⟨⟨⟨⟨⟨⟨⟨⟨⟨hcounts, hpats⟩, hrst⟩, hspd⟩, hbpm⟩, hchan⟩, henv⟩, hsus⟩, hord⟩, hseq.1⟩, hseq.2⟩
+  exact ⟨⟨⟨⟨⟨⟨⟨⟨⟨⟨⟨hcounts, hpats⟩, hrst⟩, hspd⟩, hbpm⟩, hchan⟩, henv⟩, hsus⟩, hord⟩, hseq.1⟩, hseq.2⟩, hloops⟩
 
 
 /-- **C03_sequences**: after `libxmp_scan_sequences`, unless the order list is
@@ -112,7 +116,7 @@ theorem C03_sequences (scan : Nat → ScanRes) (raw m : Module) (h : finish scan
     ∧ ∀ ord : Nat, (ord : Int) < m.len → ∃ c, m.seqCtl[ord]? = some c ∧ (c = 0xff ∨ c < m.numSeq) := by
   have hw := C03_finish_wf scan raw m h
   simp only [WFCommon, Bool.and_eq_true] at hw
-  obtain ⟨⟨_, hs⟩, hc⟩ := hw
+  obtain ⟨⟨⟨_, hs⟩, hc⟩, _⟩ := hw
   simp only [sequencesOK, Bool.or_eq_true, Bool.and_eq_true, decide_eq_true_eq, List.all_eq_true] at hs
   rcases hs with hs | ⟨⟨⟨⟨h1, h2⟩, h3⟩, h4⟩, h5⟩
   · omega
@@ -281,7 +285,7 @@ theorem C03_nonneg (scan : Nat → ScanRes) (raw m : Module) (h : finish scan ra
   constructor
   · simp only [WFCommon, Bool.and_eq_true] at hw
     simp only [rstOK, Bool.and_eq_true, decide_eq_true_eq]
-    refine ⟨?_, hw.1.1.1.1.1.1.1.1.2⟩
+    refine ⟨?_, hw.1.1.1.1.1.1.1.1.1.2⟩
     rw [hrst]; split <;> omega
   · unfold envelopesOK
     rw [allBelow_iff]
@@ -427,6 +431,17 @@ example :
     (finish scan (exRaw [0, 0xff, 0xff] 3)).toOption.map (fun m => (m.numSeq, m.seqCtl.take 3)) = some (1, [0, 0, 0xff])
     ∧ ((seqLoop scan 3 4 { ctl := applyScan 3 0 0 ctlInit (firstScan scan 3), seq := 1, eps := [0], times := [480],
                            calls := 1 }).ctl.take 3 = [0, 0, 1]) := by
+  decide +kernel
+
+/-- the epilogue's loop block: a loaded sample whose flagged loop ends past its
+data loses the loop (and only then) -/
+example :
+    let s : Sample := { name := [0], len := 100, lps := 10, lpe := 101, floop := true, floopBidir := true,
+                        fsloop := false, fsloopBidir := false, other := 0, hasData := true }
+    ((epilogueLoop s).lps, (epilogueLoop s).lpe, (epilogueLoop s).floop, (epilogueLoop s).floopBidir)
+      = (0, 0, false, false)
+    ∧ epilogueLoop { s with lpe := 100 } = { s with lpe := 100 }
+    ∧ epilogueLoop { s with hasData := false } = { s with hasData := false } := by
   decide +kernel
 
 /-- a module the gate refuses: pattern 0 references track 1 of 1 -/
